@@ -13,7 +13,7 @@ from .report import AnalysisError, Ctx, Where
 
 # exceptions whose occurrence on a folded path does not depend on how complete a rule's scenario is (unlike KeyError /
 # AttributeError / ValueError, which a scenario that lacks an entry could cause): reported as violations, not analysis errors
-CERTAIN_RAISES = {"IndexError", "UnboundLocalError", "NameError", "ZeroDivisionError", "StopIteration", "RecursionError"}
+CERTAIN_RAISES = {"IndexError", "UnboundLocalError", "NameError", "ZeroDivisionError", "StopIteration", "RecursionError", "TypeError"}
 
 
 def function_at(model, file, line):
